@@ -64,6 +64,7 @@ mod enum_parse;
 mod enum_hash;
 mod enum_state;
 mod realbin;
+mod watch;
 mod cli;
 
 fn main()
